@@ -205,6 +205,10 @@ def cases(tier, seed):
     for ivs in ([(0, 1), (5, inf)], [(-inf, -3), (0, 0)], [(-inf, inf)], [(-inf, 0), (0.5, inf)], [(1, inf), (-inf, 1)],
                 [(inf, inf), (0, 1)], [(-inf, -inf), (3, 4)]):
         yield list(ivs), [-10, -3, -1, 0, 0.25, 0.5, 1, 2, 5, 1e300]
+    big = 10 ** 400
+    for ivs in ([(big, big + 5), (0, 1)], [(-big, -big + 2), (big, big)], [(2 ** 1024, 2 ** 1024 + 1), (2 ** 1023, 2 ** 1023 + 1)]):
+        ends = sorted({x for iv in ivs for x in iv})
+        yield list(ivs), sorted(set(ends + [e + 1 for e in ends] + [e - 1 for e in ends] + [0, 0.5]))
     for base in (10 ** 9, 1_700_000_000_000, 2 ** 53 - 4000, -10 ** 12):
         for _ in range(6 if tier == "quick" else 60):
             out, cur = [], base
